@@ -287,3 +287,9 @@ func (v *VerifTerm) VerifSetKbdFlags(flags int) { v.T.keyboardMode().flags = fla
 // VerifSetViewInt / VerifSetViewFlag set mode registers directly (no callback).
 func (v *VerifTerm) VerifSetViewInt(i ViewInt, val int)    { v.T.viewInts[i] = val }
 func (v *VerifTerm) VerifSetViewFlag(i ViewFlag, val bool) { v.T.viewFlags[i] = val }
+
+// VerifStyleWords returns the three packed words of a Style.
+func VerifStyleWords(s Style) [3]uint32 { return [3]uint32{s.fg, s.bg, s.underlineColor} }
+
+// Mode returns the text read mode of the wrapped terminal.
+func (v *VerifTerm) Mode() TextReadMode { return v.T.textReadMode }
